@@ -137,12 +137,12 @@ func PrimitiveTypeFromJSONSchemaType(
 
 			if removeMin {
 				*minimum = nil
-				*exclusiveMaximum = nil
+				*exclusiveMinimum = nil
 			}
 
 			if removeMax {
 				*maximum = nil
-				*exclusiveMinimum = nil
+				*exclusiveMaximum = nil
 			}
 		}
 
